@@ -5,7 +5,7 @@ CONSTANTS
   YModes = {}
   TailMode = "none"
   Depth = 0
-  OpNames = {"AddStyle", "RemoveStyle", "Resolve"}
+  OpNames = {"AddStyle", "RemoveStyle", "Edit", "Resolve"}
 INVARIANTS Inv_Terminates Inv_Nearest Inv_StepLaw Inv_Owner Inv_Found Inv_ReadOnly
 PROPERTIES Act_Frame Act_OwnWins Act_ReadOnly
 VIEW MCView
